@@ -1,32 +1,51 @@
 #!/usr/bin/env python3
-"""Apply each seeded change to /repo, run its target property's check (and, if silent, all others), undo; write seeded/detection.json."""
-import json, os, subprocess, sys
+"""tools/recheck_seeds.py [SEED ...]: apply each seeded change to a scratch copy of /repo's working tree (outside /repo and
+/verif, removed afterwards), run its target property's check on the copy (and, if that is silent, all others) and write
+seeded/detection.json.  /repo itself is never touched."""
+import json, os, shutil, subprocess, sys, tempfile
+from concurrent.futures import ThreadPoolExecutor
 V = os.path.dirname(os.path.dirname(os.path.abspath(__file__)))
-def sh(c): return subprocess.run(c, shell=True, stdout=subprocess.PIPE, stderr=subprocess.STDOUT, text=True)
-assert sh("git -C /repo status --porcelain").stdout.strip() == "", "repo not clean"
+
+
+def sh(c, **kw):
+    return subprocess.run(c, shell=True, stdout=subprocess.PIPE, stderr=subprocess.STDOUT, text=True, **kw)
+
+
 props = [c["property_id"] for c in json.load(open(os.path.join(V, "MANIFEST.json")))["checks"]]
 only = sys.argv[1:]
 path = os.path.join(V, "seeded", "detection.json")
 out = json.load(open(path)) if os.path.exists(path) else {}
-for sid in sorted(os.listdir(os.path.join(V, "seeded"))):
+
+
+def one(sid):
     d = os.path.join(V, "seeded", sid)
-    if not os.path.isdir(d) or (only and sid not in only): continue
     prop = sid.split("-")[0]
-    if sh("git -C /repo apply %s/patch.diff" % d).returncode != 0:
-        out[sid] = {"applies": False}; print(sid, "patch does not apply"); continue
+    base = tempfile.mkdtemp(prefix="rs_", dir=os.environ.get("TMPDIR") or "/tmp")
     try:
-        r = sh("cd %s && ./check %s --no-evidence" % (V, prop))
+        shutil.copytree("/repo/src", os.path.join(base, "src"), ignore=shutil.ignore_patterns("__pycache__", "*.pyc"))
+        sh("git init -q .", cwd=base)
+        if sh("git apply %s/patch.diff" % d, cwd=base).returncode != 0:
+            return sid, {"applies": False}
+        r = sh("cd %s && ./check %s --no-evidence --root %s" % (V, prop, base))
         f = [l for l in r.stdout.splitlines() if l.startswith("FINDING")]
         rec = {"applies": True, "target_exit": r.returncode, "target_rule": f[0].split()[1] if f else None, "target_report": f[0][:300] if f else None}
         if r.returncode != 1:
             others = {}
             for p in props:
-                if p == prop: continue
-                r2 = sh("cd %s && ./check %s --no-evidence" % (V, p))
-                if r2.returncode != 0: others[p] = r2.returncode
+                if p == prop:
+                    continue
+                r2 = sh("cd %s && ./check %s --no-evidence --root %s" % (V, p, base))
+                if r2.returncode != 0:
+                    others[p] = r2.returncode
             rec["other_checks_nonzero"] = others
+        return sid, rec
     finally:
-        sh("git -C /repo checkout -- .")
-    out[sid] = rec
-    print(sid, "exit=%s" % rec["target_exit"], rec.get("target_rule"), rec.get("other_checks_nonzero", ""))
+        shutil.rmtree(base, ignore_errors=True)
+
+
+sids = [s for s in sorted(os.listdir(os.path.join(V, "seeded"))) if os.path.isdir(os.path.join(V, "seeded", s)) and os.path.exists(os.path.join(V, "seeded", s, "patch.diff")) and (not only or s in only)]
+with ThreadPoolExecutor(12) as ex:
+    for sid, rec in ex.map(one, sids):
+        out[sid] = rec
+        print(sid, "exit=%s" % rec.get("target_exit"), rec.get("target_rule"), rec.get("other_checks_nonzero", "") if rec.get("applies") else "patch does not apply")
 json.dump(out, open(path, "w"), indent=1, sort_keys=True)
